@@ -25,12 +25,12 @@ def run(prog, chk):
         "_featuresCompatible: all masters' feature text equals the default's, or only the default has any (R10.6)",
     ]
     chk.not_decided += ["gvar / HVAR / GPOS variation data computed by fontTools.varLib and feaLib", "numeric reproduction of the masters"]
-    r101(prog, chk)
-    r102(prog, chk)
-    r103(prog, chk)
-    r104(prog, chk)
-    r105(prog, chk)
-    r106(prog, chk)
+    chk.guard(r101, prog, chk)
+    chk.guard(r102, prog, chk)
+    chk.guard(r103, prog, chk)
+    chk.guard(r104, prog, chk)
+    chk.guard(r105, prog, chk)
+    chk.guard(r106, prog, chk)
 
 
 def _source_loops(prog, f: FuncInfo) -> List[ast.For]:
